@@ -35,6 +35,20 @@ func r15_9(c *Ctx, r *Report) {
 	units := []unit{
 		{"calendar.(*SolarMonth).GetDays", []int64{21, 28, 29, 30, 31}, func(v int64) []string { return days(v) }},
 		{"calendar.(*SolarWeek).GetDays", []int64{0}, func(v int64) []string { return days(7) }},
+		// a week's days inside its own month: variant p in 0..6 = the first p days lie in the month before,
+		// variant 10+q = the last q days lie in the month after
+		{"calendar.(*SolarWeek).GetDaysInMonth", []int64{0, 1, 2, 3, 4, 5, 6, 11, 12, 13, 14, 15, 16}, func(v int64) []string {
+			if v >= 10 {
+				return days(7 - (v - 10))
+			}
+			return days(7)[v:]
+		}},
+		{"calendar.(*SolarWeek).GetFirstDayInMonth", []int64{0, 1, 2, 3, 4, 5, 6, 11, 12, 13, 14, 15, 16}, func(v int64) []string {
+			if v >= 10 {
+				return []string{"returns day+0"}
+			}
+			return []string{fmt.Sprintf("returns day+%d", v)}
+		}},
 		{"calendar.(*SolarYear).GetMonths", []int64{0}, func(v int64) []string { return months(1, 12) }},
 		{"calendar.(*SolarSeason).GetMonths", all12, func(v int64) []string { return months((v-1)/3*3+1, 3) }},
 		{"calendar.(*SolarHalfYear).GetMonths", all12, func(v int64) []string { return months((v-1)/6*6+1, 6) }},
@@ -59,13 +73,33 @@ func r15_9(c *Ctx, r *Report) {
 				k, isI := o.(int64)
 				return k, ok && isI
 			}
+			var lm *listModel
 			leaf = func(fr *evalFrame, val ssa.Value) (interface{}, bool) {
+				if x, ok := lm.leaf(c, fr, val); ok {
+					return x, true
+				}
 				if rc, f, ok := getterField(c, val); ok {
+					if f == "Solar.month" {
+						// the month of a listed day, for the in-month views of a week
+						var k int64
+						if s, ok := strOf(fr, rc); ok {
+							if _, err := fmt.Sscanf(s, "day+%d", &k); err == nil {
+								switch {
+								case v < 10 && k < v:
+									return int64(9), true
+								case v >= 10 && k >= 7-(v-10):
+									return int64(11), true
+								}
+								return int64(10), true
+							}
+						}
+						return nil, false
+					}
 					if ofr, o := fr.origin(rc); ofr.parent == nil && o == ssa.Value(fn.Params[0]) {
 						switch f {
 						case "SolarMonth.year", "SolarSeason.year", "SolarHalfYear.year", "SolarYear.year", "SolarWeek.year":
 							return int64(2023), true
-						case "SolarMonth.month":
+						case "SolarMonth.month", "SolarWeek.month":
 							return int64(10), true
 						case "SolarSeason.month", "SolarHalfYear.month":
 							return v, true
@@ -79,8 +113,6 @@ func r15_9(c *Ctx, r *Report) {
 				callee := call.Common().StaticCallee()
 				args := call.Common().Args
 				switch {
-				case callee.String() == "container/list.New":
-					return absPtr{"list", false}, true
 				case fname(callee) == "SolarUtil.GetDaysOfMonth":
 					return v, true
 				case callee.Name() == "NewSolarFromYmd" && callee.Signature.Recv() == nil && len(args) == 3:
@@ -121,30 +153,19 @@ func r15_9(c *Ctx, r *Report) {
 				return nil, false
 			}
 			ev := &evaluator{leaf: leaf, inline: inlineLibrary, counted: 64}
-			var list []string
-			ev.visit = func(fr *evalFrame, call *ssa.Call) {
-				callee := call.Common().StaticCallee()
-				if callee == nil || len(call.Common().Args) != 2 {
-					return
-				}
-				front := callee.String() == "(*container/list.List).PushFront"
-				if !front && callee.String() != "(*container/list.List).PushBack" {
-					return
-				}
-				el := "?"
-				if o, ok := ev.eval(fr, unwrapIface(call.Common().Args[1]), 0); ok {
-					el = fmt.Sprint(o)
-				}
-				if front {
-					list = append([]string{el}, list...)
-				} else {
-					list = append(list, el)
-				}
-			}
-			_, outcome := ev.run(fn, nil, nil, nil, nil)
+			lm = newListModel(ev)
+			ev.visit = lm.visit
+			res, outcome := ev.run(fn, nil, nil, nil, nil)
 			n++
 			want := strings.Join(u.want(v), ", ")
-			got := strings.Join(list, ", ")
+			got := "no list returned"
+			if len(res) == 1 {
+				if p, isP := res[0].(absPtr); isP && strings.HasPrefix(p.tag, "list@") {
+					got = strings.Join(lm.render(p.tag), ", ")
+				} else {
+					got = "returns " + fmt.Sprint(res[0])
+				}
+			}
 			if outcome != "return" {
 				got = outcome + " " + ev.fail
 			}
@@ -154,5 +175,5 @@ func r15_9(c *Ctx, r *Report) {
 		}
 		r.check(len(bad) == 0 && n > 0, rule, u.fn+" lists its elements in order", c.fnPos(fn), fmt.Sprintf("%d variants; deviations: %v", n, bad))
 	}
-	r.floor(rule, 5)
+	r.floor(rule, 7)
 }
